@@ -99,3 +99,18 @@ Proof. split; [vm_compute; discriminate|vm_compute; reflexivity]. Qed.
 Theorem C15_plset_value : forall pnum l k, plset_get pnum l k = kv_get k (apply_sets l []).
 Proof. exact plset_get_eq. Qed.
 Print Assumptions C15_plset_value.
+
+(* (9) the partition count used for routing is always the newest configured one: for every history
+   of partition initialisations (also with a changed count while partitions of the old generation
+   are still registered) and stops, a served command is served by the partition the client computes
+   from the newest configured count, which is hosted; otherwise it is rejected *)
+From ZV Require Import Part.NsMeta Part.NsMetaProofs.
+Theorem C15_route_uses_newest_conf : forall evs pk p,
+  ns_route (ns_run evs) pk = Served p ->
+  exists n, newest_conf evs None = Some n /\ 0 < n /\ p = part_of pk n /\ In p (hosted (ns_run evs)).
+Proof. exact ns_route_correct. Qed.
+Print Assumptions C15_route_uses_newest_conf.
+
+Example C15_ex_reconf :
+  ns_route (ns_run [NsInit 0 2; NsInit 1 2; NsStop 0; NsInit 0 3; NsInit 2 3]) [116;58;97] <> Rejected.
+Proof. vm_compute. discriminate. Qed.
